@@ -1,0 +1,90 @@
+//! Verification hooks for the RIB unit (feature `verif-hooks`, add-only).
+//!
+//! This file is mounted as a child module of `rib_unit::unit` (one cfg'd
+//! `#[path] pub mod` line at the end of `unit.rs`) because the fields of
+//! `RibUnitRunner` are private to that module and its only non-`new`
+//! constructor, `RibUnitRunner::mock`, is `cfg(test)`.
+//!
+//! Nothing here has behaviour of its own: `mk_runner` builds the runner the
+//! way `RibUnitRunner::mock` does (physical RIB, no roto filter, a gate
+//! nobody listens to); everything else is a plain call of the real function.
+
+use std::sync::Arc;
+
+use arc_swap::ArcSwap;
+
+use super::super::http::PrefixesApi;
+use super::super::statistics::RibMergeUpdateStatistics;
+use super::super::status_reporter::RibUnitStatusReporter;
+use super::{QueryLimits, RibType};
+use crate::common::frim::FrimMap;
+use crate::comms::{Gate, GateAgent};
+use crate::payload::Update;
+use crate::roto_runtime::types::FilterName;
+use crate::tokio::TokioTaskMetrics;
+use crate::tracing::Tracer;
+
+pub use super::super::rib::Rib;
+pub use super::RibUnitRunner;
+
+/// A physical RIB unit runner without a roto filter, field for field what
+/// `RibUnitRunner::mock("", RibType::Physical)` builds under `cfg(test)`.
+/// The `GateAgent` must be kept alive by the caller.
+pub fn mk_runner() -> (RibUnitRunner, GateAgent) {
+    let rib_type = RibType::Physical;
+    let (gate, gate_agent) = Gate::new(0);
+    let gate = gate.into();
+    let query_limits =
+        Arc::new(ArcSwap::from_pointee(QueryLimits::default()));
+    let rib = Rib::new_physical();
+    let status_reporter = RibUnitStatusReporter::default().into();
+    let pending_vrib_query_results = Arc::new(FrimMap::default());
+    let filter_name = Arc::new(ArcSwap::from_pointee(FilterName::default()));
+    let _process_metrics = Arc::new(TokioTaskMetrics::new());
+    let rib_merge_update_stats: Arc<RibMergeUpdateStatistics> =
+        Default::default();
+
+    let shared_rib = Arc::new(ArcSwap::new(Arc::new(rib)));
+    let http_processor = Arc::new(PrefixesApi::new(
+        shared_rib.clone(),
+        Arc::new("dummy".to_string()),
+        query_limits.clone(),
+        rib_type,
+        None,
+        pending_vrib_query_results.clone(),
+        Arc::default(), // ingress::Register
+    ));
+    let tracer = Arc::new(Tracer::new());
+
+    let runner = RibUnitRunner {
+        gate,
+        http_processor,
+        query_limits,
+        rib: shared_rib,
+        rib_type,
+        status_reporter,
+        filter_name,
+        pending_vrib_query_results,
+        _process_metrics,
+        rib_merge_update_stats,
+        tracer,
+        roto_function_pre: None,
+        roto_function_post: None,
+    };
+
+    (runner, gate_agent)
+}
+
+/// `RibUnitRunner::process_update`, unchanged (it is `pub(super)`).
+pub async fn process_update(
+    runner: &RibUnitRunner,
+    update: Update,
+) -> Result<(), String> {
+    runner.process_update(update).await
+}
+
+/// The runner's current `Rib` (what `RibUnitRunner::rib()` returns under
+/// `cfg(test)`); `Rib::match_prefix` / `withdraw_for_ingress` are `pub`.
+pub fn rib(runner: &RibUnitRunner) -> Arc<Rib> {
+    runner.rib.load().clone()
+}
